@@ -88,6 +88,24 @@ def count_maintained(prog, fld):
     return True, ""
 
 
+def _bit_known(conds, rd, ip, mask):
+    """0 / 1 when the (true) path conditions establish the value of bit idx%8 of the byte rd, else None"""
+    A = norm(("bin", "&", ("bin", ">>", rd, ("bin", "%", ip, C(8))), C(1)))
+    B = norm(("bin", "&", rd, mask))
+    for c in conds:
+        neg = c[0] == "un" and c[1] == "not"
+        x = c[2] if neg else c
+        if x in (A, B):
+            return 0 if neg else 1
+        if x[0] == "cmp" and x[1] in ("==", "!=") and x[3][0] == "c" and isinstance(x[3][1], int):
+            eq = (x[1] == "==") != neg
+            if x[2] == A and x[3][1] in (0, 1):
+                return x[3][1] if eq else 1 - x[3][1]
+            if x[2] == B and x[3][1] == 0:
+                return 0 if eq else 1
+    return None
+
+
 def check(prog, rep, tier):
     rep.extra["explanation"] = EXPL
     K = prog.cls(CLS)
@@ -108,6 +126,8 @@ def check(prog, rep, tier):
     for f in own_methods(prog, CLS):
         if f.prop or f.src_name == "__init__":
             continue
+        if f.src_name.startswith("_") and not f.src_name.endswith("__"):
+            continue  # a private helper is judged inside the public methods that call it (it is looked through there)
         # the item store may delegate to the guarded single-bit writers: look through them so that their accesses (and guards) are seen
         ps = paths(prog, CLS, f, force_inline=("set_bit", "clear_bit") if f.src_name == "__setitem__" else ())
         rep.analysed(f, CLS, len(ps))
@@ -207,6 +227,12 @@ def check(prog, rep, tier):
                                 rep.ok("C20.byte-range", f"{CLS}.{f.src_name}: stored byte in {fmt_iv(biv)} (val = 1)")
                                 rep.ok("C20.byte-range", f"{CLS}.{f.src_name}: stored byte in {fmt_iv(biv)} (val = 0)")
                                 continue
+                    toggled = False
+                    if shape is None and v == norm(("bin", "^", rd, mask)):
+                        # toggle form: old ^ m is old|m where the bit is known to be 0 and old&~m where it is known to be 1
+                        known = _bit_known([strip_epochs(c) for c in conds], rd, ip, mask)
+                        shape = "set" if known == 0 else ("clear" if known == 1 else None)
+                        toggled = shape is not None
                     if shape is None:
                         rep.bad("C20.addressing", f"{CLS}.{f.src_name}", f"store {nshow(value)}",
                                 f"stored value {nshow(value)} is neither old|m nor old&~m with m = 1<<(idx%8)", loc)
@@ -229,7 +255,7 @@ def check(prog, rep, tier):
                                 f"{f.src_name} performs a {shape} where a {want} is required", loc)
                     else:
                         rep.ok("C20.addressing", f"{CLS}.{f.src_name}: {shape} store old{'|m' if shape == 'set' else '&~m'}")
-                    biv = Intervals(conds, {}, crange).iv(value)
+                    biv = (0, 255) if toggled else Intervals(conds, {}, crange).iv(value)  # a byte with one bit flipped is a byte
                     if biv[0] is not None and biv[0] >= 0 and biv[1] is not None and biv[1] <= 255:
                         rep.ok("C20.byte-range", f"{CLS}.{f.src_name}: stored byte in {fmt_iv(biv)}")
                     else:
@@ -251,6 +277,17 @@ def check(prog, rep, tier):
                         else:
                             rep.bad("C20.addressing", f"{CLS}.{f.src_name}", f"return {nshow(value)}",
                                     f"returned value {nshow(value)} is not ((old & 1<<(idx%8)) != 0) as 0/1", loc)
+            # a writer that returns without storing must have found the bit already at the wanted value
+            if f.src_name in ("set_bit", "clear_bit"):
+                wanted = 1 if f.src_name == "set_bit" else 0
+                rd_ = strip_epochs(("sub", ("f", SELF, ARR, 0), byte, 0))
+                for p in ps:
+                    if p.exit[0] != "return" or any(e.kind == "setelem" and outer_field(e.cont) == ARR for e in p.events):
+                        continue
+                    if _bit_known([strip_epochs(c) for c in all_conds(p)], rd_, ip, mask) != wanted:
+                        rep.bad("C20.addressing", f"{CLS}.{f.src_name}", "returns without storing",
+                                f"a path of {f.src_name} returns without writing the byte and without having found the bit already {'set' if wanted else 'clear'}", f.where())
+                        break
             # value guard exits for __setitem__
             if "val" in f.params:
                 vr = [p for p in ps if p.exit[0] == "raise" and "ValueError" in show(p.exit[1])]
@@ -396,6 +433,13 @@ from ..selftest import Mutant, del_stmt, replace_expr, replace_stmt, swap_binop,
 
 _U = "utilities.py"
 MUTANTS = [
+    Mutant("set_bit toggles when the masked byte differs from 1 (wrong for idx % 8 != 0)", "utilities.py",
+           replace_stmt("Bitarray", "set_bit", "self._bitarray[b] = ", "if (self._bitarray[b] & (1 << (idx % 8))) != 1:\n    self._bitarray[b] = self._bitarray[b] ^ (1 << (idx % 8))"), rule="C20.addressing"),
+    Mutant("set_bit toggles only when the bit is clear (same meaning)", "utilities.py",
+           replace_stmt("Bitarray", "set_bit", "self._bitarray[b] = ", "if (self._bitarray[b] >> (idx % 8)) & 1 != 1:\n    self._bitarray[b] = self._bitarray[b] ^ (1 << (idx % 8))"), expect="silent"),
+    Mutant("clear_bit does nothing when the bit is clear ... and nothing when it is set", "utilities.py",
+           replace_stmt("Bitarray", "clear_bit", "self._bitarray[b] = ", "if (self._bitarray[b] >> (idx % 8)) & 1 == 2:\n    self._bitarray[b] = self._bitarray[b] & ~(1 << (idx % 8))"), rule="C20."),
+
     Mutant("__setitem__ guard >= -> >", _U, swap_cmp("Bitarray", "__setitem__", _ast.GtE, _ast.Gt), rule="C20.guard"),
     Mutant("check_bit guard >= -> >", _U, swap_cmp("Bitarray", "check_bit", _ast.GtE, _ast.Gt), rule="C20.guard"),
     Mutant("set_bit guard >= -> >", _U, swap_cmp("Bitarray", "set_bit", _ast.GtE, _ast.Gt), rule="C20.guard"),
